@@ -2,7 +2,7 @@
 import copy
 
 from harness import grammar, render, tlc
-from harness.common import CANARY_BASE, Report, import_hpl, rng, split_canaries, tier
+from harness.common import CANARY_BASE, keep, Report, import_hpl, rng, split_canaries, tier
 from harness.drive import call_parser
 
 
@@ -19,6 +19,8 @@ def run(replay=None):
         toks, exp = render.substitute(s, lits=grammar.STD_LITS)
         exp = grammar.fix_var_names(exp)
         text = ' '.join(toks)
+        if not keep(text):
+            continue
         outs = []
         for way, entry, t in (('condition', 'condition', text), ('predicate', 'predicate', '{ ' + text + ' }'),
                               ('property', 'property', 'after t as A: no u { ' + text + ' }'),
